@@ -3,6 +3,7 @@ package rules
 import (
 	"fmt"
 	"go/ast"
+	"go/token"
 	"go/types"
 	"strings"
 
@@ -312,7 +313,7 @@ func ruleWriteIfNeeded(c *core.Ctx) {
 			}
 			if tv, ok := info.Types[ret.Results[0]]; ok && tv.IsNil() {
 				// must be guarded by `err == nil && bytes.Equal(existing, contents)`
-				cond := enclosingIfCond(d.Body, ret)
+				cond := enclosingIfConds(d.Body, ret)
 				if cond != nil && condIsFullEquality(info, cond, readErr, existing, pnames[1]) {
 					c.OK(rule, key, ret.Pos(), "skip-write return guarded by `"+types.ExprString(cond)+"`")
 				} else {
@@ -352,6 +353,32 @@ func enclosingIfCond(body *ast.BlockStmt, n ast.Node) ast.Expr {
 	return cond
 }
 
+// enclosingIfConds returns the conjunction of the conditions of every if whose then-branch
+// contains n (nested ifs are a spelled-out &&), or nil.
+func enclosingIfConds(body *ast.BlockStmt, n ast.Node) ast.Expr {
+	var cond ast.Expr
+	ast.Inspect(body, func(x ast.Node) bool {
+		if is, ok := x.(*ast.IfStmt); ok {
+			if is.Body.Pos() <= n.Pos() && n.End() <= is.Body.End() {
+				if cond == nil {
+					cond = is.Cond
+				} else {
+					cond = &ast.BinaryExpr{X: cond, Op: token.LAND, Y: is.Cond}
+				}
+			} else if is.Else != nil && is.Else.Pos() <= n.Pos() && n.End() <= is.Else.End() {
+				var neg ast.Expr = &ast.UnaryExpr{Op: token.NOT, X: &ast.ParenExpr{X: is.Cond}}
+				if cond == nil {
+					cond = neg
+				} else {
+					cond = &ast.BinaryExpr{X: cond, Op: token.LAND, Y: neg}
+				}
+			}
+		}
+		return true
+	})
+	return cond
+}
+
 func condIsFullEquality(info *types.Info, cond ast.Expr, errObj, existing, contents types.Object) bool {
 	// conjunction containing `err == nil` and bytes.Equal(existing, contents) (either order), nothing negated
 	var conj []ast.Expr
@@ -370,6 +397,12 @@ func condIsFullEquality(info *types.Info, cond ast.Expr, errObj, existing, conte
 		if o, neq, ok := core.IsNilTest(info, e); ok && o == errObj && !neq {
 			hasErr = true
 			continue
+		}
+		if u, ok := e.(*ast.UnaryExpr); ok && u.Op == token.NOT { // else-branch of `if err != nil`
+			if o, neq, ok := core.IsNilTest(info, ast.Unparen(u.X)); ok && o == errObj && neq {
+				hasErr = true
+				continue
+			}
 		}
 		if call, ok := e.(*ast.CallExpr); ok {
 			if cf := core.Callee(info, call); cf != nil && core.FullName(cf) == "bytes.Equal" && len(call.Args) == 2 {
